@@ -334,18 +334,19 @@ def RStream.handleResetStreamFrame (s : RStream) (finalSize reliable code : Nat)
       | none => s0.acceptReset finalSize reliable code
     FrameOut.complete ⟨o.s, o.err, Ev.fcUpdate finalSize true :: o.evs⟩ false
 
+/-- `cancelReadImpl` → (state, queuedNewControlFrame) -/
+def RStream.cancelReadImpl (s : RStream) (code : Nat) : RStream × Bool :=
+  if s.cancelledLocally then (s, false)          -- duplicate call to CancelRead
+  else if s.shutdown then (s, false)
+  else if s.errorRead || s.cancelledRemotely then ({ s with cancelledLocally := true }, false)
+  else ({ s with cancelledLocally := true, queuedStopSending := true, cancelErr := some (code, false) }, true)
+
 /-- `CancelRead` -/
 def RStream.cancelRead (s : RStream) (code : Nat) : RStream × List Ev :=
-  let (s, queued) : RStream × Bool :=
-    if s.cancelledLocally then (s, false)
-    else if s.shutdown then (s, false)
-    else
-      let s := { s with cancelledLocally := true }
-      if s.errorRead || s.cancelledRemotely then (s, false)
-      else ({ s with queuedStopSending := true, cancelErr := some (code, false) }, true)
-  let (s, completed) := s.isNewlyCompleted
-  let evs := (if queued then [Ev.hasCtrl] else [])
-  if completed then ({ s with fc := s.fc.abandon }, evs ++ [Ev.fcAbandon, Ev.completed]) else (s, evs)
+  let i := s.cancelReadImpl code
+  let c := i.1.isNewlyCompleted
+  (if c.2 then { c.1 with fc := c.1.fc.abandon } else c.1,
+   (if i.2 then [Ev.hasCtrl] else []) ++ (if c.2 then [Ev.fcAbandon, Ev.completed] else []))
 
 def RStream.closeForShutdown (s : RStream) : RStream := { s with shutdown := true }
 
@@ -361,7 +362,6 @@ def RStream.getControlFrame (s : RStream) : RStream × CtrlFrame × List Ev :=
   else if s.queuedStopSending then
     ({ s with queuedStopSending := false }, .stopSending ((s.cancelErr.map (·.1)).getD 0) s.queuedMaxStreamData, [])
   else
-    let (fc', v) := s.fc.getWindowUpdate
-    ({ s with queuedMaxStreamData := false, fc := fc' }, .maxStreamData v, [Ev.fcWindow])
+    ({ s with queuedMaxStreamData := false, fc := s.fc.getWindowUpdate.1 }, .maxStreamData s.fc.getWindowUpdate.2, [Ev.fcWindow])
 
 end Uquic.Model.Reassembly
